@@ -352,9 +352,9 @@ def main():
     bounded = None
     if not os.environ.get('VERIF_NO_BOUNDED'):
         bounded = run_bounded(prop)
-        if bounded['status'] == 'error':
+        if bounded['status'] == 'error' and not new_viol:
             return undecided('broken-check:bounded-stand-in-error', bounded.get('detail', ''))
-        if bounded['status'] != 'none':
+        if bounded['status'] in ('pass', 'fail'):
             ev['coverage']['bounded_stand_in'] = dict(label='bounded - never counted as proved', cmd=bounded['cmd'], evaluations=bounded['cases'],
                                                       distinct=bounded['distinct'], rule=BOUNDED_RULE, samples=bounded['samples'], status=bounded['status'],
                                                       failing_input=bounded.get('failing_input'))
